@@ -5,3 +5,4 @@ import PanderaModel.Props.C01
 #print axioms Pandera.C01.validate_accepts_iff_sat_partial
 #print axioms Pandera.C01.K_C01_strVacuous_witness
 #print axioms Pandera.C01.validate_returns_input
+#print axioms Pandera.C01.pandas_builtin_eq_docPred
